@@ -1,38 +1,62 @@
 /- trace validator for the C08 model (Model/Pool.lean)
 
-   header:  run pool workers=<n> subs=<k0,k1,…> stop=<stop|soft|hard|none> late=<0|1> …
-   threads: w<i> = worker i, s<i> = submitter i, x = the stopper, r = the root fiber, which (if late=1) acts as
-            one more submitter (index = number of submitters) submitting the single job `late` after Wait returned
+   header:  run pool workers=<n> subs=<k0,k1,…> [virt=<v0,v1,…>] stop=<stop|soft|hard|none> late=<0|1> …
+   Submit streams of the model = the real submitters (subs), then the *virtual* streams (virt: Submits made from
+            inside a job body or a Drop — by a worker, by the stopper inside HardStop's Drop loop, by a submitter whose
+            job was rejected; a virtual stream need not submit all of its jobs), then (late=1) the root.
+   threads: w<i> = worker i, s<i> = submitter i, x = the stopper, r = the root fiber.  A thread that emits
+            `E submit j<I>.<k>` is inside a Submit of stream I until that Submit returns; its lock / unlock / notify_one /
+            drop lines in between belong to stream I.
    objects: m = FairThreadPool::_m (the fiber mutex reports its internal wait queue under the same name:
-            `m park|wake|notify_one` are scheduler level and skipped), cv = FairThreadPool::_idle
-   jobs:    j<i>.<k> = k-th job of submitter i                                                                -/
+            `m park|wake|notify_one` are scheduler level and skipped), cv = FairThreadPool::_idle,
+            j… = synchronisation private to job bodies (skipped)
+   jobs:    j<i>.<k> = k-th job of stream i, `late` = the root's job                                            -/
 import YaclibModel.Model.Pool
 import Driver.Trace
 
 namespace Yaclib.Driver.PoolD
 open Yaclib.Pool Yaclib.Driver
 
+structure DState where
+  m : State
+  nReal : Nat
+  nVirt : Nat
+  cur : List (String × Nat)      -- trace thread ↦ the Submit stream it is inside
+
 def parseKind (s : String) : Option (Option StopKind) :=
   match s with
   | "stop" => some (some .stop) | "soft" => some (some .soft) | "hard" => some (some .hard)
   | "none" => some none | _ => none
 
-def initP (hdr : List String) : Option State := do
+def parseNats (o : Option String) : Option (List Nat) :=
+  match o with
+  | none => some []
+  | some "-" => some []
+  | some t => (t.splitOn ",").mapM String.toNat?
+
+def initP (hdr : List String) : Option DState := do
   let n ← (hdrGet hdr "workers").bind String.toNat?
-  let subsS ← hdrGet hdr "subs"
-  let subs ← if subsS = "-" then some [] else (subsS.splitOn ",").mapM String.toNat?
+  let subs ← parseNats (hdrGet hdr "subs")
+  let virt ← parseNats (hdrGet hdr "virt")
   let kind ← (hdrGet hdr "stop").bind parseKind
   let late := (hdrGet hdr "late") = some "1"
-  pure (init { workers := n, subs := if late then subs ++ [1] else subs, stop := kind })
+  pure { m := init { workers := n, subs := subs ++ virt ++ (if late then [1] else []), stop := kind },
+         nReal := subs.length, nVirt := virt.length, cur := [] }
 
-/-- the real submitters are all but the last one when the header said late=1; the driver does not keep the flag,
-    `r` is simply the last submitter -/
-def parseTid (s : State) (t : String) : Option Tid :=
+/-- the thread a trace name stands for when it is not inside a Submit -/
+def parseTid (t : String) : Option Tid :=
   if t = "x" then some .stopper
-  else if t = "r" then (if s.subs.length = 0 then none else some (.sub (s.subs.length - 1)))
   else if t.startsWith "w" then (t.drop 1).toString.toNat?.map .worker
-  else if t.startsWith "s" then (t.drop 1).toString.toNat?.map .sub
   else none
+
+/-- who acts in the model when trace thread `t` does a mutex / condvar operation or a Drop -/
+def actor (d : DState) (t : String) : Option Tid :=
+  match d.cur.lookup t with
+  | some i =>
+      (match d.m.subs[i]? with
+       | some sb => if sb.pc ≠ .idle then some (.sub i) else parseTid t
+       | none => parseTid t)
+  | none => parseTid t
 
 def parseJob (s : State) (j : String) : Option JobId :=
   if j = "late" then (if s.subs.length = 0 then none else some ⟨s.subs.length - 1, 0⟩)
@@ -85,64 +109,83 @@ inductive Parsed where
   | check (ok : Bool) (name : String)   -- no step, but the model state must agree
 
 def workerPc (s : State) (t : String) : Option WPc :=
-  match parseTid s t with
+  match parseTid t with
   | some (.worker i) => s.workers[i]?
   | _ => none
 
-def toParsed (s : State) (ts : List String) : Parsed :=
+def toParsed (d : DState) (ts : List String) : Parsed :=
+  let s := d.m
   match ts with
-  | [t, "M", "m", "lock", _] => (match parseTid s t with | some t => .lab (.lock t) | none => .bad)
-  | [t, "M", "m", "unlock", _] => (match parseTid s t with | some t => .lab (.unlock t) | none => .bad)
+  | [t, "M", "m", "lock", _] => (match actor d t with | some t => .lab (.lock t) | none => .bad)
+  | [t, "M", "m", "unlock", _] => (match actor d t with | some t => .lab (.unlock t) | none => .bad)
   | _ :: "M" :: "m" :: _ => .skip
   | [t, "M", "cv", "park", _] => .check (workerPc s t = some .parked) "check.park"
   | [t, "M", "cv", "wake", _] =>
-      (match parseTid s t, workerPc s t with
+      (match parseTid t, workerPc s t with
        | some (.worker i), some .parked => .lab (.spurious i)      -- nobody notified it
        | _, some .woken => .check true "check.wake"
        | _, _ => .bad)
   | [t, "M", "cv", "notify_one", "0"] =>
-      (match parseTid s t with | some (.sub i) => .lab (.notifyOne i none) | _ => .bad)
+      (match actor d t with | some (.sub i) => .lab (.notifyOne i none) | _ => .bad)
   | [t, "M", "cv", "notify_one", "1", v] =>
-      (match parseTid s t, parseTid s v with
+      (match actor d t, parseTid v with
        | some (.sub i), some (.worker v) => .lab (.notifyOne i (some v))
        | _, _ => .bad)
   | [t, "M", "cv", "notify_all", r] =>
       -- the implementation reports whether anybody was waiting: must agree with the model's parked set
       if (r = "1") ≠ (s.workers.contains .parked) then .bad
-      else (match parseTid s t with | some t => .lab (.notifyAll t) | none => .bad)
-  | _ :: "M" :: _ => .bad                        -- an unknown sync object
-  | [t, "E", "submit", j] =>
-      (match parseTid s t, parseJob s j with | some (.sub i), some j => .lab (.submit i j) | _, _ => .bad)
+      else (match actor d t with | some t => .lab (.notifyAll t) | none => .bad)
+  | _ :: "M" :: o :: _ => if o.startsWith "j" then .skip else .bad     -- job-private objects / unknown object
+  | [_, "E", "submit", j] =>
+      (match parseJob s j with | some j => .lab (.submit j.sub j) | none => .bad)
   | ["x", "E", "stop", k] => (match parseKind k with | some (some k) => .lab (.stopBegin k) | _ => .bad)
   | ["x", "E", "stop_done"] => .check (s.xpc = .done) "check.stopDone"
   | [t, "E", "call", j] =>
-      (match parseTid s t, parseJob s j with | some (.worker i), some j => .lab (.call i j) | _, _ => .bad)
+      (match parseTid t, parseJob s j with | some (.worker i), some j => .lab (.call i j) | _, _ => .bad)
   | [t, "E", "drop", j] =>
-      (match parseTid s t, parseJob s j with | some t, some j => .lab (.drop t j) | _, _ => .bad)
+      (match actor d t, parseJob s j with | some t, some j => .lab (.drop t j) | _, _ => .bad)
   | ["r", "E", "wait_returned"] => .lab .waitReturn
   | _ :: "E" :: _ => .bad
   | _ => .skip
 
-def stepP (s : State) (ts : List String) : Option (Option (State × String)) :=
-  match toParsed s ts with
+def cleanup (s : State) (cur : List (String × Nat)) : List (String × Nat) :=
+  cur.filter fun (_, i) => match s.subs[i]? with | some sb => sb.pc ≠ .idle | none => false
+
+def nestedSuffix (d : DState) (l : Label) : String :=
+  match l with
+  | .submit i _ => if d.nReal ≤ i ∧ i < d.nReal + d.nVirt then ".nested" else ""
+  | _ => ""
+
+def stepP (d : DState) (ts : List String) : Option (Option (DState × String)) :=
+  match toParsed d ts with
   | .skip => none
   | .bad => some none
-  | .check ok name => if ok then some (some (s, name)) else some none
+  | .check ok name => if ok then some (some (d, name)) else some none
   | .lab l =>
-      match next s l with
+      match next d.m l with
       | none => some none
-      | some s' => some (some (s', ruleOf s l))
+      | some s' =>
+          let cur := match l, ts with
+            | .submit i _, t :: _ => (t, i) :: d.cur.filter (fun p => p.1 ≠ t)
+            | _, _ => d.cur
+          some (some ({ d with m := s', cur := cleanup s' cur }, ruleOf d.m l ++ nestedSuffix d l))
 
-/-- every run of the harness ends after Wait returned, with every submitter and the stopper finished -/
-def finalP (s : State) : Option String :=
+/-- every run of the harness ends after Wait returned, with every real submitter and the stopper finished;
+    a virtual stream (Submits from inside job bodies / Drops) must not be inside a Submit -/
+def finalP (d : DState) : Option String :=
+  let s := d.m
+  let unfinished := (List.range s.subs.length).any fun i =>
+    match s.subs[i]? with
+    | some sb => sb.pc ≠ .idle ∨ ((i < d.nReal ∨ d.nReal + d.nVirt ≤ i) ∧ sb.k ≠ sb.total)
+    | none => false
   if s.waitReturned = false then some "Wait did not return"
   else if s.workers.any (· ≠ .exited) then some "a worker has not exited"
-  else if s.subs.any (fun sb => sb.pc ≠ .idle ∨ sb.k ≠ sb.total) then some "a submitter has not finished"
+  else if unfinished then some "a submitter has not finished"
   else if s.xpc ≠ .done then some "the stopper has not finished"
   else if s.locked then some "the mutex is held"
   else none
 
 def model : TraceModel :=
-  { σ := State, init := initP, step := stepP, final := finalP, showState := fun s => reprStr s }
+  { σ := DState, init := initP, step := stepP, final := finalP, showState := fun d => reprStr d.m ++ s!" cur={d.cur}" }
 
 end Yaclib.Driver.PoolD
